@@ -507,7 +507,11 @@ impl<'tcx> Cx<'tcx> {
                 ("op", esc(&format!("{:?}", op))),
                 ("a", self.operand(body, a)),
             ]),
-            Rvalue::Discriminant(p) => obj(&[("k", esc("discr")), ("place", self.place(body, p))]),
+            Rvalue::Discriminant(p) => obj(&[
+                ("k", esc("discr")),
+                ("place", self.place(body, p)),
+                ("pty", self.ty(p.ty(&body.local_decls, tcx).ty)),
+            ]),
             Rvalue::Aggregate(kind, ops) => {
                 let ops_s: Vec<String> = ops.iter().map(|o| self.operand(body, o)).collect();
                 let mut items: Vec<(&str, String)> = vec![("k", esc("aggr")), ("ops", arr(&ops_s))];
